@@ -140,9 +140,14 @@ func execNode(t []string) string {
 			}
 			spec.TS = ts
 			spec.Bits = uint32(int64(b.Bits) + tamper)
-			if b, err = n.Build(spec, false); err != nil {
-				panic("harness: rebuild: " + err.Error())
+			tb, err := n.Build(spec, false)
+			if err != nil {
+				// no proof of work exists for the tampered bits (negative or minute target): there is
+				// no such block to deliver
+				parts = append(parts, fmt.Sprintf("%x:0", spec.Bits))
+				continue
 			}
+			b = tb
 		}
 		in, _, _ := n.Deliver(b)
 		acc := "0"
